@@ -227,6 +227,27 @@ def handleC14 (toks : List String) : String :=
         showRats (out.flatMap V3.toList) ++ " ; " ++ " ".intercalate above ++ " ; " ++ showRats [mw, mf]
       | _, _, _ => err "format"
     | _, _, _, _, _ => err "format"
+  | "surf" :: l0 :: h0 :: l1 :: h1 :: l2 :: h2 :: rest =>
+    -- surf lo0 hi0 lo1 hi1 lo2 hi2 <3 shift> <9 vects> <3 origin> <3N positions of the rotated cell>
+    --   -> box of the supercell ; positions after supersize + shift + wrap ; margin to the wrap discontinuity
+    match parseInts? [l0, h0, l1, h1, l2, h2], parseRats? rest with
+    | some [l0, h0, l1, h1, l2, h2], some xs =>
+      match v3? (xs.take 3), M3.ofList? ((xs.drop 3).take 9), v3? ((xs.drop 12).take 3) with
+      | some sh, some vects, some o =>
+        let okSize := fun (lo hi : Int) => decide (lo ≤ 0) && decide (0 ≤ hi) && decide (hi - lo ≠ 0)
+        if M3.det vects = 0 then err "value" else
+        if !(okSize l0 h0 && okSize l1 h1 && okSize l2 h2) then err "value" else
+        let rbox : Box Rat := ⟨vects, o⟩
+        let atoms : List (C04.Atom Rat) := (chunk3 (xs.drop 15)).map (fun p => ⟨0, p, []⟩)
+        let (sbox, out) := surfaceAtoms rbox ⟨l0, h0⟩ ⟨l1, h1⟩ ⟨l2, h2⟩ (fun x => x.floor) sh atoms
+        let sup := C04.supersizeAtoms rbox ⟨l0, h0⟩ ⟨l1, h1⟩ ⟨l2, h2⟩ atoms
+        let mw := sup.foldl (fun m a =>
+          let s := sbox.cartToRel (a.pos + sh)
+          min (min (min m (distInt s.x)) (distInt s.y)) (distInt s.z)) (1 : Rat)
+        showRats (sbox.vects.toList ++ sbox.origin.toList) ++ " ; " ++
+          showRats (out.flatMap (fun a => a.pos.toList)) ++ " ; " ++ showRat mw
+      | _, _, _ => err "format"
+    | _, _ => err "format"
   | "fshift" :: cut :: rest =>
     -- fshift cut a1 a2 oop <3 a1cart> <3 a2cart>
     match Cut.ofString? cut, parseRats? rest with
